@@ -328,6 +328,32 @@ pub fn run(run: &Run) {
                 }
             }
         });
+        let extra: Vec<usize> = run.pick(vec![], vec![200_000]);
+        let labels = super::pipe::zwnj_huge_run_labels(&extra);
+        super::pipe::battery(run, "zwnj_huge_runs", &labels, &|s, l| {
+            let chars: Vec<char> = s.chars().collect();
+            let z = chars.iter().position(|c| *c == ZWNJ).unwrap();
+            match check_label_all(&chars, &[z], &[CtxRule::Zwnj], l) {
+                Ok(()) => true,
+                Err(v) => {
+                    run.violate(v);
+                    false
+                }
+            }
+        });
+        let extra: Vec<usize> = run.pick(vec![], vec![1 << 24]);
+        let labels = super::pipe::huge_whole_label_labels(&extra);
+        super::pipe::battery(run, "huge_whole_label_labels", &labels, &|s, l| {
+            let chars: Vec<char> = s.chars().collect();
+            let positions: Vec<usize> = [0usize, chars.len() - 1].into_iter().filter(|p| ref_registry(chars[*p] as u32).is_some()).collect();
+            match check_label_all(&chars, &positions, &[CtxRule::KatakanaDot, CtxRule::ArabicIndic, CtxRule::ExtArabicIndic], l) {
+                Ok(()) => true,
+                Err(v) => {
+                    run.violate(v);
+                    false
+                }
+            }
+        });
         // positions that alias an in-label position modulo 2^8, 2^16, 2^31, 2^32, 2^63 (offset truncated to a narrower integer)
         let fam: Vec<String> = super::pipe::PAYLOADS_FAMILIES.iter().map(|s| s.to_string()).chain(["l\u{b7}l".to_string(), "\u{94d}\u{200d}".to_string(), "\u{5d0}\u{5f3}".to_string(), "\u{375}\u{3b1}".to_string(), "\u{626}\u{200c}\u{626}".to_string()]).collect();
         super::pipe::battery(run, "position_aliases", &fam, &|s, l| {
